@@ -88,6 +88,7 @@ type IterState struct {
 
 type State struct {
 	PC           []Term
+	PCs          []string // PC[i].String(), kept alongside
 	Mem          map[string]Term // leaf memory per type key
 	MemSort      map[string]Sort
 	MemEpoch     map[string]int
@@ -111,6 +112,9 @@ type State struct {
 	Universals   []universal
 	LockSnap     *State // state right after the first Lock() on this path
 	HeldMus      []Term // mutexes currently held by this goroutine on this path
+	Clock        int    // allocation counter at the last mutation of this state's memory
+	PrivChans    []Term // channels made by this unit that nothing else can reach yet
+	PrivTaint    map[string][]string // local variable cell -> private channels stored in it
 }
 
 // universal is an assumed forall kept for later instantiation at new terms.
@@ -126,6 +130,7 @@ func NewState() *State {
 func (s *State) Clone() *State {
 	n := &State{
 		PC:           append([]Term(nil), s.PC...),
+		PCs:          append([]string(nil), s.PCs...),
 		Mem:          make(map[string]Term, len(s.Mem)),
 		MemEpoch:     make(map[string]int, len(s.MemEpoch)),
 		MemSort:      s.MemSort, // append-only, shared
@@ -148,6 +153,9 @@ func (s *State) Clone() *State {
 		Universals:   append([]universal(nil), s.Universals...),
 		LockSnap:     s.LockSnap,
 		HeldMus:      append([]Term(nil), s.HeldMus...),
+		Clock:        s.Clock,
+		PrivChans:    append([]Term(nil), s.PrivChans...),
+		PrivTaint:    cloneTaint(s.PrivTaint),
 	}
 	for k, v := range s.Mem {
 		n.Mem[k] = v
@@ -172,6 +180,7 @@ func (s *State) Assume(t Term) {
 		return
 	}
 	s.PC = append(s.PC, t)
+	s.PCs = append(s.PCs, t.String())
 }
 
 func (f *Frame) cloneFor() *Frame {
@@ -210,4 +219,15 @@ func (v Val) String() string {
 		return fmt.Sprintf("tuple%v", v.Tuple)
 	}
 	return v.T.String()
+}
+
+func cloneTaint(m map[string][]string) map[string][]string {
+	if len(m) == 0 {
+		return nil
+	}
+	n := make(map[string][]string, len(m))
+	for k, v := range m {
+		n[k] = v
+	}
+	return n
 }
